@@ -28,7 +28,30 @@ func runC16(c *eng.Ctx) {
 	c.Rule("R16.1", "K1")
 	if fn := c.Fn(cl + "newMessageSetFromProto"); fn != nil {
 		cc := eng.BoolEdges(fn, eng.Param("concurrencyControl"), true)
-		hasExp := eng.CmpEdges(fn, eng.LoadNamed("Offset", nil), eng.IntConst(-1), eng.NE)
+		// "an expected offset is given": m.Offset != -1, written in place or through a predicate method whose every return is
+		// exactly that comparison
+		givenPred := func(g *ssa.Function) bool {
+			n, ok := allReturns(g, nil, func(rv []ssa.Value) bool {
+				return len(rv) == 1 && eng.RelVal(eng.LoadNamed("Offset", nil), eng.IntConst(-1), eng.NE)(rv[0])
+			})
+			return n > 0 && ok
+		}
+		predEdges := func(pol bool) []eng.Edge {
+			var out []eng.Edge
+			eng.Instrs(fn, func(in ssa.Instruction) {
+				call, isCall := in.(*ssa.Call)
+				if !isCall {
+					return
+				}
+				g := call.Common().StaticCallee()
+				if g == nil || !p.IsModuleFunc(g) || len(g.Blocks) == 0 || call.Type().String() != "bool" || !givenPred(g) {
+					return
+				}
+				out = append(out, eng.BoolEdges(fn, func(v ssa.Value) bool { return v == ssa.Value(call) }, pol)...)
+			})
+			return out
+		}
+		hasExp := append(eng.CmpEdges(fn, eng.LoadNamed("Offset", nil), eng.IntConst(-1), eng.NE), predEdges(true)...)
 		notConst := func(v ssa.Value) bool { return !eng.IsConst(v) }
 		differs := eng.CmpEdges(fn, notConst, eng.LoadNamed("Offset", nil), eng.NE)
 		n := 0
@@ -69,7 +92,7 @@ func runC16(c *eng.Ctx) {
 		c.Check(w == nil && len(mm) > 0, "a rejected message is not serialised", p.Pos(fn.Pos()), "from the mismatch edge no write to the buffer is reachable", "bytes of a message with an incorrect expected offset can still be written (path "+w.String()+")")
 		// every write of an iteration comes after the test: the first binary.Write is not reachable from the loop head without passing the cc test
 		notCC := eng.BoolEdges(fn, eng.Param("concurrencyControl"), false)
-		noExp := eng.CmpEdges(fn, eng.LoadNamed("Offset", nil), eng.IntConst(-1), eng.EQ)
+		noExp := append(eng.CmpEdges(fn, eng.LoadNamed("Offset", nil), eng.IntConst(-1), eng.EQ), predEdges(false)...)
 		same := eng.CmpEdges(fn, notConst, eng.LoadNamed("Offset", nil), eng.EQ)
 		for _, wcall := range eng.CallsIn(fn, "encoding/binary.Write") {
 			g, wt := eng.GuardedBy(fn, wcall.(ssa.Instruction), append(append(append([]eng.Edge{}, notCC...), noExp...), same...))
@@ -367,6 +390,10 @@ func runC16(c *eng.Ctx) {
 
 	c.Rule("R14.9", "K1")
 	// PENDING-F67 ruleRawPayloadWaivesExpectedOffset(c)
+
+	// ---- R01.15 (shared) a roll excludes appends: the base offset of the new segment is the log end at the time it is published
+	c.Rule("R01.15", "K4")
+	ruleRollExcludesAppend(c)
 
 }
 
